@@ -149,6 +149,21 @@ func c18Build(c *c18Case) (shared []any, ops []c18Op, err error) {
 			}
 		}
 	}
+	// a countersignature constructed in memory: signed over external data without alg, so its Protected map is
+	// empty and a verification without the external data must fail - and must not touch the header map
+	{
+		ck := refcose.KeyMat{Alg: refcose.AlgEdDSA, D: rc.Hex("c18-countersigner-seed-32-bytes!")}
+		csg, _ := libSigner(ck, false)
+		cvf, _ := libVerifier(ck, false)
+		ccs := cose.NewCountersignature()
+		if err := ccs.Sign(refcose.NewEntropy(nil), csg, m.parent(true), []byte("bound external data")); err == nil {
+			shared = append(shared, ccs)
+			ops = append(ops,
+				c18Op{"ConstructedCountersignature.Verify", func() string { return errStr(ccs.Verify(cvf, m.parent(false), []byte("bound external data"))) }},
+				c18Op{"ConstructedCountersignature.Verify/no-external", func() string { return errStr(ccs.Verify(cvf, m.parent(true), nil)) }},
+				c18Op{"ConstructedCountersignature.MarshalCBOR", func() string { b, e := ccs.MarshalCBOR(); return hex.EncodeToString(b) + errStr(e) }})
+		}
+	}
 	// a COSE_Key (EC2 keys with a short coordinate, or Ed25519)
 	var key *cose.Key
 	if c.KeyIdx >= 0 {
